@@ -123,25 +123,18 @@ def derive_caps(rng, gr, ll):
     return (lgr, rgr, lll, rll)
 
 # ------------------------------------------------------------- known classes
-# Findings C10-1..C10-6 are repaired.  One class is left (mirrors Spec/GrSpec.v Known_C10_7; the
-# check compares the two on every generated history):
-#   C10-7  a session whose negotiated GR or LLGR families are not all session families
-def wf_event(e):
-    if e[0] != 'up':
-        return True
-    fams = set(e[1])
-    grf = set(e[2][0]) if e[2] else set()
-    llf = set(f for f, _ in e[3]) if e[3] else set()
-    return grf <= fams and llf <= fams
-
+# Findings C10-1..C10-7 are repaired: no input class is excluded and the theorems carry no
+# Known_* hypothesis.  (When a class is open again, mirror its Coq predicate here and have
+# run_model evaluate the Coq predicate next to every history and compare, as was done for
+# C10-7 before its repair.)
 def known_classes(evs):
     """set of open finding ids whose input class this history belongs to"""
-    return set() if all(wf_event(e) for e in evs) else {'C10-7'}
+    return set()
 
 class Prop:
     pid = 'C10'
     props_file = 'Props/C10.v'
-    required_theorems = ['helper_mode_entry_arms_timer', 'drop_never_leaves_helper_mode', 'stale_implies_timer_or_eor_outside_known', 'stale_implies_timer_or_eor_refuted', 'failed_reconnect_keeps_timer', 'no_llgr_dropped_at_llgr_start', 'no_llgr_dropped_at_llgr_only_drop', 'fresh_routes_survive_purge', 'live_session_routes_survive_purge', 'purged_by_expiry_or_eor', 'non_negotiated_families_dropped_at_once', 'non_gr_reasons_retain_nothing_outside_known', 'non_gr_reasons_retain_nothing_refuted']
+    required_theorems = ['helper_mode_entry_arms_timer', 'drop_never_leaves_helper_mode', 'stale_implies_timer_or_eor', 'phase_timer_consistency', 'failed_reconnect_keeps_timer', 'no_llgr_dropped_at_llgr_start', 'no_llgr_dropped_at_llgr_only_drop', 'fresh_routes_survive_purge', 'live_session_routes_survive_purge', 'purged_by_expiry_or_eor', 'non_negotiated_families_dropped_at_once', 'non_gr_reasons_retain_nothing']
     correspondence_name = ('Model/Gr.v gr_step vs daemon/src/gr.rs GrState::process (harness/daemon/gr_hx.rs); '
                            'Model/Gr.v h_step vs apply_disconnect / process_effects / timer handlers / unregister_peer on a real '
                            'PeerContext + TableManager (harness/daemon/event_gr_hx.rs)')
@@ -284,33 +277,8 @@ class Prop:
         return out, ''
 
     def run_model(self, cases, tier):
-        # every glue history is evaluated together with the Coq class predicate Known_C10_7, which is
-        # compared here with its hand-written python mirror known_classes()
-        pre = 'From RB Require Import Base.Val Model.Deferral Model.Gr Spec.GrSpec.\nOpen Scope N_scope.'
-        terms = []
-        for c in cases:
-            t = self.case_to_coq(c)
-            if c['kind'] == 'h':
-                evs = clist([hev_to_coq(e) for e in c['evs']])
-                t = 'VL [%s; VB (Known_C10_7 %s)]' % (t, evs)
-            terms.append(t)
-        res, err = coqrun.eval_terms('C10m', pre, terms, shards=8)
-        if res is None:
-            return None, err
-        out = []
-        self.known_compared = 0
-        for k, (c, r) in enumerate(zip(cases, res)):
-            if c['kind'] == 'h':
-                obs, flag = r
-                py = 'C10-7' in known_classes(c['evs'])
-                if bool(flag) != py:
-                    return None, 'known-class predicates disagree on case %d: Coq Known_C10_7=%s, python=%s, events=%s' % (
-                        k, flag, py, c['evs'])
-                self.known_compared += 1
-                out.append(obs)
-            else:
-                out.append(r)
-        return out, ''
+        pre = 'From RB Require Import Base.Val Model.Deferral Model.Gr.\nOpen Scope N_scope.'
+        return coqrun.eval_terms('C10m', pre, [self.case_to_coq(c) for c in cases], shards=8)
 
     def canon(self, case, obs):
         if obs == [-1]:
